@@ -10,6 +10,7 @@ mod persist;
 mod qcache;
 mod sched;
 mod ratelimit;
+mod rpc;
 mod shim;
 mod store;
 mod tiered;
@@ -31,6 +32,7 @@ fn main() {
         Some("mem") => mem::run(),
         Some("codec") => codec::run(),
         Some("conc") => conc::run(),
+        Some("rpc") => rpc::run(),
         _ => {
             eprintln!("usage: kvh <engine>");
             std::process::exit(2);
